@@ -59,14 +59,14 @@ def _check_one(f, counter, m1, m2, P, events, classes):
     counter.budget = 50 * (P + m1 + m2) + 1000
     try:
         got = f(m1, m2, P)
-    except RuntimeError:
+    except BudgetExceeded as e:
+        return ("no-termination-within-budget", "max=(%d,%d), P=%d: %s" % (m1, m2, P, e))
+    except Exception as e:  # noqa: BLE001 - any exception counts as "an error is raised" (its type is not part of the property)
         events["error_raised"] = events.get("error_raised", 0) + 1
         classes.add(_cls(m1, m2, P, V, "error"))
         if V:
-            return ("error-although-valid-exists", "RuntimeError raised for max=(%d,%d), P=%d although %r are valid" % (m1, m2, P, V[:4]))
+            return ("error-although-valid-exists", "%s raised for max=(%d,%d), P=%d although %r are valid" % (type(e).__name__, m1, m2, P, V[:4]))
         return None
-    except BudgetExceeded as e:
-        return ("no-termination-within-budget", "max=(%d,%d), P=%d: %s" % (m1, m2, P, e))
     events["grid_returned"] = events.get("grid_returned", 0) + 1
     classes.add(_cls(m1, m2, P, V, "grid"))
     try:
@@ -168,7 +168,7 @@ def run_case(case):
                 except BudgetExceeded as e:
                     return result(VIOL, cls=sorted(classes), events=events, n_eval=n_eval, key="C20:no-termination-within-budget",
                                   what="compute_2d_process_grid(%r,%d): %s" % ([nr, nth, nz, nv], P, e), witness={"npts": [nr, nth, nz, nv], "P": P})
-                except RuntimeError:
+                except Exception:  # noqa: BLE001
                     events["npts_form_error"] = events.get("npts_form_error", 0) + 1
                     if V:
                         return result(VIOL, cls=sorted(classes), events=events, n_eval=n_eval, key="C20:npts-form-error-although-valid",
